@@ -126,7 +126,8 @@ pub struct ConnectSpec {
     pub id: u8,
     pub clean: bool,
     /// 0 right for the listener's configuration, 1 absent, 2 unknown user, 3 wrong password,
-    /// 4 the other scheme's right credentials, 5 another user's password, 6 empty password
+    /// 4 the other scheme's right credentials, 5 another user's password, 6 empty password,
+    /// 7 unknown user with empty password
     pub login: u8,
     pub will: bool,
     /// write the CONNECT in two chunks, yielding in between (Some(fraction/256))
@@ -180,6 +181,9 @@ fn resolve_login(choice: u8, static_auth: bool, external: u8) -> Option<(&'stati
         4 => Some(if ext_check { ("user1", "pass1") } else { ("ext", "extpw") }),
         5 => Some(("user2", "pass1")),
         6 => Some((if ext_check { "ext" } else { "user1" }, "")),
+        // an unknown user with an empty password (an empty user NAME is not generated: the
+        // broker's CONNECT decoder reads it as "no login", which the statement does not settle)
+        7 => Some(("nouser", "")),
         _ => Some(if ext_check {
             ("ext", "extpw")
         } else if static_auth {
@@ -435,7 +439,7 @@ fn connect_spec(listener_known: bool) -> BoxedStrategy<ConnectSpec> {
                     c.id = 2; // empty
                     c.clean = detail & 1 == 0; // empty + clean is admissible
                 }
-                10 | 11 => c.login = 1 + idx(detail, 6) as u8,
+                10 | 11 => c.login = 1 + idx(detail, 7) as u8,
                 _ => {}
             }
             c
@@ -930,6 +934,9 @@ pub struct WillSpec {
 pub enum End {
     /// DISCONNECT, then (false) drop the stream at once / (true) wait for the broker to close
     Disconnect { wait: bool },
+    /// v5: DISCONNECT (reason 0) carrying properties (0 reason string, 1 user property,
+    /// 2 session expiry 0), then drop the stream; v4 subjects send the plain DISCONNECT
+    DisconnectProps { kind: u8 },
     /// drop the stream
     Close,
     /// write a PUBLISH (QoS 0/1) and drop the stream without reading
@@ -985,6 +992,7 @@ fn end_strategy(keepalive: bool) -> BoxedStrategy<End> {
     }
     let base = prop_oneof![
         4 => any::<bool>().prop_map(|wait| End::Disconnect { wait }),
+        2 => (0u8..3).prop_map(|kind| End::DisconnectProps { kind }),
         3 => Just(End::Close),
         2 => (0u8..=1).prop_map(|qos| End::CloseAfterPublish { qos }),
         2 => any::<u8>().prop_map(|fraction| End::CloseMidPacket { fraction }),
@@ -1105,7 +1113,7 @@ impl Campaign for C16Wills {
         let r = run_case(case.seed, |stack| c16_body(stack, &case, late_ver));
         let (filter, _) = OBS_FILTERS[case.obs_filter as usize % 4];
         let matching = case.will.as_ref().is_some_and(|w| ref_matches(WILL_TOPICS[w.topic as usize % 2], filter));
-        let polite = matches!(case.end, End::Disconnect { .. } | End::DisconnectWhileWriteBlocked);
+        let polite = matches!(case.end, End::Disconnect { .. } | End::DisconnectProps { .. } | End::DisconnectWhileWriteBlocked);
         obs.class_if(case.will.is_some(), "will_registered");
         obs.class_if(polite, "end_disconnect");
         obs.class_if(case.will.is_some() && !polite && matching, "will_expected");
@@ -1113,6 +1121,7 @@ impl Campaign for C16Wills {
         obs.class_if(case.will.as_ref().is_some_and(|w| w.retain), "will_retained");
         obs.class(match case.end {
             End::Disconnect { .. } => "end:disconnect",
+            End::DisconnectProps { .. } => "end:disconnect_with_properties",
             End::Close => "end:close",
             End::CloseAfterPublish { .. } => "end:close_after_publish",
             End::CloseMidPacket { .. } => "end:close_mid_packet",
@@ -1202,6 +1211,19 @@ async fn c16_body(stack: Stack, case: &C16Case, late_ver: Ver) -> R<()> {
             if *wait {
                 x.read_to_end().await?;
             }
+            x.close();
+        }
+        End::DisconnectProps { kind } => {
+            sent_disconnect = true;
+            let mut props = Props::default();
+            if case.ver == Ver::V5 {
+                match kind % 3 {
+                    0 => props.reason_string = Some(Txt::lit("bye")),
+                    1 => props.user = vec![(Txt::lit("k"), Txt::lit("v"))],
+                    _ => props.session_expiry = Some(0),
+                }
+            }
+            x.send_packet(&M::Disconnect(md::Disconnect { reason: 0, props })).await?;
             x.close();
         }
         End::Close => x.close(),
